@@ -22,7 +22,10 @@ CLAUSE → THEOREM TABLE (R1 review; property text in properties.jsonl)
                      values in [0,1]; evaluated by the harness on every fitted model (relation `C10.eg_pmf_range.hyp`);
                      that the EG loop produces such weights is C08's subject.
   2  EG: positive probability = `weights_`-weighted mixture of the stored predictors' outputs
-       `eg_pmf_is_mixture`, `eg_pmf_order_irrelevant`
+       `eg_pmf_is_mixture`, `eg_pmf_order_irrelevant`; the mask, the `.dot` pairing, the `[1 − p, p]` columns, the
+       column `[:, 1]`, the `>=` and the `* 1` of `_pmf_predict` / `predict` are LIFTED (`Generated/EgPredict.lean`) and
+       the model computes with them: `eg_mask_lifted`, `eg_dot_lifted`, `eg_pmf_row_lifted`, `eg_predict_label_lifted`,
+       `eg_predict_deterministic`
   3  thresholder: depends only on the row's score and group
        `pmf_depends_only_on_score_group`, `thresholder_selects_group`, `thresholder_unseen_group`
        (the model is row-wise BY CONSTRUCTION; what ties the real mask assignment to it is the correspondence
